@@ -102,6 +102,12 @@ def build():
         opens = [n for n in ast.walk(rd) if isinstance(n, ast.Call) and ast.unparse(n.func) == "open"]
         if not opens or not all(any(k.arg == "newline" and ast.unparse(k.value) in ("''", '""') for k in o.keywords) for o in opens):
             problems.append("the CSV file is not opened with newline='': line breaks inside quoted cells are translated")
+        # the reader is the csv module's reader for the (sniffed or default) dialect, nothing else: any extra formatting parameter (an escape
+        # character, another quote character, skipinitialspace ...) makes it read well-formed excel-dialect cells differently from how they are written
+        for rc in [n for n in ast.walk(rd) if isinstance(n, ast.Call) and ast.unparse(n.func) == "csv.reader"]:
+            extra = [k.arg for k in rc.keywords if k.arg not in ("dialect",)]
+            if extra:
+                problems.append(f"L{rc.lineno}: csv.reader is given {extra}: cells containing that character no longer come back as written")
         nexts = [n for n in ast.walk(rd) if isinstance(n, ast.Call) and ast.unparse(n.func) == "next"]
         if any(len(n.args) < 2 for n in nexts):
             problems.append("next(csvreader) without a default: an empty file raises StopIteration")
